@@ -208,21 +208,28 @@ def cmp_tree(p, node, where, out):
             out.append(("tree", f"{where}: expected a list of {len(node['elems'])} set elements, JSON has {p!r}"))
         else:
             rest = list(p)
-            for b in node["elems"]:
-                first = None
+            missing = []
+            for b in node["elems"]:  # pass 1: exact matches
                 for i, a in enumerate(rest):
                     tmp = []
                     cmp_tree(a, b, where, tmp)
                     if not tmp:
                         del rest[i]
                         break
-                    first = first or tmp[0]
                 else:
-                    # report the closest explanation (a single candidate left: its mismatch)
-                    if len(rest) == 1 and first:
-                        out.append(first)
-                    else:
-                        out.append(("tree", f"{where}: set element {b} not found in {p!r}"))
+                    missing.append(b)
+            for b in missing:  # pass 2: pair what is left; prefer a pairing whose mismatch has a precise signature
+                best = None
+                for i, a in enumerate(rest):
+                    tmp = []
+                    cmp_tree(a, b, where, tmp)
+                    if tmp and (best is None or (best[1][0] == "tree" and tmp[0][0] != "tree")):
+                        best = (i, tmp[0])
+                if best is None:
+                    out.append(("tree", f"{where}: set element {b} not found in {p!r}"))
+                else:
+                    del rest[best[0]]
+                    out.append(best[1])
     elif j == "obj":
         if type(p) is not dict:
             out.append(("tree", f"{where}: expected an object with keys {node['keys']}, JSON has {p!r}"))
